@@ -100,8 +100,10 @@ DirGetNodeP(perm) == << <<"L", "dir", "root", "-">> >> \o SyncEnt(perm[1]) \o Sy
 Perms == {p \in [1..3 -> {"d", "f1", "f2"}] : \A i, j \in 1..3 : i # j => p[i] # p[j]}
 
 \* program of operation op on file f by thread t, descriptor state (s, w, sync); a SET (the
-\* only nondeterminism is Go's map iteration order in cacheSync)
-ProgSet(op, f, t, s, w, sync) ==
+\* only nondeterminism is Go's map iteration order in cacheSync).  hs = names of the thread's
+\* operations since its last Open (inclusive, up to op): unused by these hand-written programs,
+\* it is the key under which the programs OBSERVED in the code are looked up (ObsProgs)
+ProgSet(op, f, t, s, w, sync, hs) ==
     CASE op = "OpenW"    -> {OpenP(f, "L", "openws")}
       [] op = "OpenWn"   -> {OpenP(f, "L", "openw")}
       [] op = "OpenR"    -> {OpenP(f, "R", "openr")}
@@ -136,8 +138,13 @@ Tok(t) == t * 10 + wn[t] + 1
 
 \* the program is (re)chosen when an operation starts (pc = 1), from the descriptor state at that
 \* moment (only the thread itself changes it)
+OpenOps == {"OpenW", "OpenWn", "OpenR"}
+FdCtx(t) == LET ops == Ops(t)  i == opi[t]
+                opens == {j \in 1..i : ops[j][1] \in OpenOps}
+                a == IF opens = {} THEN i ELSE CHOOSE j \in opens : \A k \in opens : k <= j
+            IN  [j \in 1..(i - a + 1) |-> ops[a + j - 1][1]]
 CurProgs(t) == IF pc[t] = 1 /\ st[t] = "run"
-               THEN ProgSet(Ops(t)[opi[t]][1], CurF(t), t, fdst[t], fdw[t], fdsync[t])
+               THEN ProgSet(Ops(t)[opi[t]][1], CurF(t), t, fdst[t], fdw[t], fdsync[t], FdCtx(t))
                ELSE {prog[t]}
 
 InitRest == /\ opi = [t \in T |-> 1] /\ pc = [t \in T |-> 1] /\ st = [t \in T |-> "run"]
